@@ -36,6 +36,20 @@ def frac_lemmas(facts):
 
 
 def check(ob, facts, timeout_ms=10000, use_cvc5=True, extra=()):
+    """first try with let-definitions hidden (opaque): dropping hypotheses is sound and keeps the query small"""
+    from .engine import LET_DEFS
+    if any(h.get_id() in LET_DEFS for h in ob.hyps):
+        full = ob.hyps
+        ob.hyps = [h for h in full if h.get_id() not in LET_DEFS]
+        st = _check(ob, facts, min(timeout_ms, 5000), False, extra)
+        ob.hyps = full
+        if st == "unsat":
+            ob.backend += " (let-definitions hidden)"
+            return st
+    return _check(ob, facts, timeout_ms, use_cvc5, extra)
+
+
+def _check(ob, facts, timeout_ms=10000, use_cvc5=True, extra=()):
     t0 = time.time()
     s = z3.Solver()
     s.set("timeout", timeout_ms)
@@ -64,6 +78,11 @@ def check(ob, facts, timeout_ms=10000, use_cvc5=True, extra=()):
             if r2 in ("unsat", "sat"):
                 ob.status = r2
                 ob.backend = "cvc5-1.0.3"
+        if ob.status == "unknown":
+            m = refute_by_sampling(ob, facts)
+            if m is not None:
+                ob.status, ob.model = "sat", m
+                ob.backend = "z3-sampling (model of the hypotheses under random hints; goal evaluated false in it)"
     ob.time = time.time() - t0
     return ob.status
 
@@ -87,3 +106,106 @@ def discharge(report, timeout_ms=10000, use_cvc5=True):
     for ob in report.obligations:
         check(ob, report.facts, timeout_ms, use_cvc5)
     return report
+
+
+# ---------------------------------------------------------------------------------------------
+# refutation by guided sampling: a candidate model of the hypotheses is built under random value
+# hints and the goal is *evaluated* in it; a hit is a genuine counter-model (validated by evaluation)
+
+_POOL = ["-2", "-1", "-1/2", "1/3", "1/2", "1", "2", "3/5", "4/5", "-3/5", "3", "5/13", "12/13", "7/3", "-4/5", "1/7"]
+
+
+def _atoms_for_hints(exprs):
+    seen, out = set(), []
+    stack = list(exprs)
+    while stack:
+        e = stack.pop()
+        if e.get_id() in seen:
+            continue
+        seen.add(e.get_id())
+        if z3.is_quantifier(e):
+            stack.append(e.body())
+            continue
+        if z3.is_app(e):
+            d = e.decl()
+            if d.kind() == z3.Z3_OP_UNINTERPRETED and (z3.is_real(e) or z3.is_int(e)):
+                if all(not _has_var(c) for c in e.children()):
+                    out.append(e)
+            elif d.kind() == z3.Z3_OP_UNINTERPRETED and z3.is_array(e) and e.num_args() == 0:
+                rng = e.sort().range()
+                if e.sort().domain() == z3.IntSort() and rng in (z3.RealSort(), z3.IntSort()):
+                    for i in range(3):
+                        out.append(e[i])
+            stack.extend(e.children())
+    return out
+
+
+def _has_var(e):
+    stack = [e]
+    while stack:
+        x = stack.pop()
+        if z3.is_var(x):
+            return True
+        stack.extend(x.children())
+    return False
+
+
+def refute_by_sampling(ob, facts, tries=12, timeout_ms=3000, seed=0):
+    import random
+    rnd = random.Random(seed)
+    base = list(ob.hyps) + (list(facts.items) + frac_lemmas(facts) if facts is not None else [])
+    atoms = _atoms_for_hints(base + [ob.goal])
+    if not atoms:
+        return None
+    for t in range(tries):
+        s = z3.Solver()
+        s.set("timeout", timeout_ms)
+        s.set("random_seed", seed + t)
+        for h in base:
+            s.add(h)
+        hints = {}
+        for i, a in enumerate(atoms):
+            if z3.is_int(a):
+                v = z3.IntVal(rnd.choice([0, 1, 2, 3, 5]))
+            else:
+                v = z3.RealVal(rnd.choice(_POOL))
+            p = z3.Bool(f"_hint{i}")
+            s.add(z3.Implies(p, a == v))
+            hints[p] = a
+        active = list(hints)
+        model = None
+        for _ in range(6):
+            r = s.check(*active)
+            if r == z3.sat:
+                model = s.model()
+                break
+            if r == z3.unsat:
+                core = set(x.get_id() for x in s.unsat_core())
+                if not core:
+                    break
+                # drop roughly half of the conflicting hints
+                drop = [p for p in active if p.get_id() in core]
+                rnd.shuffle(drop)
+                dropset = set(x.get_id() for x in drop[:max(1, len(drop) // 2)])
+                active = [p for p in active if p.get_id() not in dropset]
+            else:
+                active = active[:len(active) // 2]
+        if model is None:
+            continue
+        g = ob.goal
+        insts = [g]
+        if z3.is_quantifier(g) and g.is_forall():
+            insts = [z3.substitute_vars(g.body(), *[z3.IntVal(v) if g.var_sort(g.num_vars() - 1 - j) == z3.IntSort() else z3.RealVal(v)
+                                                    for j in range(g.num_vars())]) for v in (0, 1, 2)]
+        elif z3.is_and(g):
+            insts = []
+            for part in g.children():
+                if z3.is_quantifier(part) and part.is_forall() and all(part.var_sort(j) == z3.IntSort() for j in range(part.num_vars())):
+                    insts += [z3.substitute_vars(part.body(), *[z3.IntVal(v)] * part.num_vars()) for v in (0, 1, 2)]
+                else:
+                    insts.append(part)
+        for inst in insts:
+            val = model.eval(inst, model_completion=True)
+            if z3.is_false(val):
+                return model
+    return None
